@@ -464,11 +464,15 @@ impl ProcfsHandle {
                     // If the lookup failed due to ENOENT, and the current
                     // procfs handle is "masked" in some way, try to create a
                     // temporary unmasked handle and retry the operation.
-                    Self::new_unmasked()
+                    match Self::new_unmasked() {
+                        // A handle that is still masked cannot tell us more
+                        // than this one did (and would retry without bound).
+                        Ok(unmasked) if !unmasked.is_subset => unmasked
+                            .open(base, subpath, oflags)
+                            .map(OwnedFd::from),
                         // Use the old error if creating a new handle failed.
-                        .or(Err(err))?
-                        .open(base, subpath, oflags)
-                        .map(OwnedFd::from)
+                        _ => Err(err),
+                    }
                 } else {
                     Err(err)
                 }
